@@ -265,7 +265,118 @@ def correspondence(rep, rng, tier):
   rep.absorb(b, b.run())
 
 
+  check_level(rep, rng, tier)
+
+
+def c01_clauses(keys, names_info='N_FACTORS'):
+  """C01 evaluated on annotated RSAKey protobufs: every recorded value divides n, a key with
+  recorded factors is weak, and at least one recorded value is a proper divisor unless n divides
+  another modulus of the batch."""
+  import artifacts as art
+  from paranoid_crypto.lib import util
+  ns = [util.Bytes2Int(k.rsa_info.n) for k in keys]
+  for k, n in zip(keys, ns):
+    fs = art.factors(k.test_info)
+    if not fs:
+      continue
+    for f in fs:
+      if f == 0 or n % f:
+        return 'recorded factor %x does not divide n=%x' % (f, n)
+    if not k.test_info.weak:
+      return 'factors %s recorded for n=%x but the key is not marked weak' % ([hex(f) for f in fs], n)
+    if not any(1 < f < n for f in fs) and not any(m != n and m % n == 0 for m in ns):
+      return 'no proper divisor among %s for n=%x (n divides no other modulus of the batch)' % (
+          [hex(f) for f in fs], n)
+  return None
+
+
+def check_level(rep, rng, tier):
+  """Check objects on protobuf keys: CheckGCD on every ordering of the shapes that make the
+  batch gcd equal the modulus, and re-runs of a check on already annotated keys."""
+  import itertools
+  import artifacts as art
+  from paranoid_crypto.lib import rsa_aggregate_checks as ra, rsa_single_checks as rs
+  b = Batch('rsa.checkgcd')
+  for pbits in (33, 64, 128):
+    p, q, r, s_, t = (gen_rsa.rprime(rng, pbits) for _ in range(5))
+    shapes = {
+        'chain': [p * q, p * r, q * s_],
+        'chain+dup': [p * q, p * r, q * s_, p * q],
+        'nested': [p * q, p * q * r, s_ * t],
+        'triangle': [p * q, q * r, r * p],
+        'dups': [p * q, p * q, r * s_],
+        'star': [p * q, p * r, p * s_, t * t],
+    }
+    for name, ns in shapes.items():
+      perms = list(itertools.permutations(ns))
+      if len(perms) > 24:
+        perms = rng.sample(perms, 24)
+      for perm in perms:
+        keys = [art.rsa_key(n) for n in perm]
+        ret = ra.CheckGCD().Check(keys)
+        per = ';'.join('%s:%s' % (B(art.entry(k.test_info, 'CheckGCD').result),
+                                  L(art.factors(k.test_info))) for k in keys)
+        b.add('rsa.checkgcd %s' % L(perm), 'ok %s %s' % (B(ret), per), tag=name,
+              pred=lambda keys=keys: c01_clauses(keys), always=True)
+  rep.absorb(b, b.run())
+
+  # re-runs on the same protobufs: negative first, positive later (weak flag must follow)
+  b = Batch('chk.fermat')
+  for bits in (64, 128, 512):
+    for _ in range(3 if tier == 'quick' else 10):
+      p, q = gen_rsa.fermat_exact(rng, bits, 30)
+      n = p * q
+      k = art.rsa_key(n)
+      rs.CheckFermat(max_steps=1).Check([k])
+      first = art.entry(k.test_info, 'CheckFermat').result
+      chk = rs.CheckFermat(max_steps=20000)
+      ret = chk.Check([k])
+      ent = art.entry(k.test_info, 'CheckFermat')
+      v = 'ok %s %s 0' % (B(ent.result), L(art.factors(k.test_info)))
+      if ret != ent.result or k.test_info.weak != ent.result:
+        v = 'inconsistent ret=%r result=%r weak=%r after re-run' % (ret, ent.result, k.test_info.weak)
+      b.add('chk.fermat %s %s' % (H(n), H(20000)), v, tag='rerun:first=%s' % B(first),
+            pred=lambda k=k: c01_clauses([k]), always=True, canon=art.sort_model_verdict)
+  rep.absorb(b, b.run())
+  b = Batch('rsa.checkgcd')
+  for pbits in (40, 96):
+    p, q, r = (gen_rsa.rprime(rng, pbits) for _ in range(3))
+    k1, k2 = art.rsa_key(p * q), art.rsa_key(p * r)
+    ra.CheckGCD().Check([k1])
+    ret = ra.CheckGCD().Check([k1, k2])
+    per = ';'.join('%s:%s' % (B(art.entry(k.test_info, 'CheckGCD').result), L(art.factors(k.test_info)))
+                   for k in (k1, k2))
+    if not (k1.test_info.weak and k2.test_info.weak):
+      per += ' weak-flags=%s,%s' % (k1.test_info.weak, k2.test_info.weak)
+    b.add('rsa.checkgcd %s' % L([p * q, p * r]), 'ok %s %s' % (B(ret), per), tag='rerun',
+          pred=lambda ks=(k1, k2): c01_clauses(list(ks)), always=True)
+  rep.absorb(b, b.run())
+
+
 def search(rep, rng, tier):
-  """Failing-input search on the implementation only (no model): every factor any
-  RSA factoring function reports must divide n."""
-  pass
+  """Failing-input search on the implementation only (no model), run when an obligation or
+  the correspondence broke: every factor any RSA factoring function reports must divide n.
+  Families: odd numbers in a window around products of two close primes (where an
+  off-by-something in an incremental update shows), and every family of `moduli`."""
+  from paranoid_crypto.lib import rsa_util
+  tried = 0
+  for bits in (64, 96, 128, 256, 512, 2048):
+    for target in (1, 2, 5, 31, 43, 200):
+      p, q = gen_rsa.fermat_exact(rng, bits, target)
+      n0 = p * q
+      K = (p + q) // 2 - (int(gmpy2.isqrt(n0)) + 1)
+      for delta in range(-8, 2 * min(K, 300) + 9, 2):
+        n = n0 + delta
+        if n <= 3:
+          continue
+        tried += 1
+        r = rsa_util.FermatFactor(gmpy2.mpz(n), min(K + 20, 5000))
+        if r is not None and int(r[0]) * int(r[1]) != n:
+          rep.violations.append(dict(
+              op='rsa.fermat', line='rsa.fermat %s %s' % (H(n), H(min(K + 20, 5000))),
+              what='FermatFactor(n=%x) returned (%x, %x) whose product is not n (n = p*q%+d for close '
+                   'primes p, q)' % (n, int(r[0]), int(r[1]), delta),
+              impl=fmt_optpair(r), model=None, info=None))
+          rep.extra['search_tried'] = tried
+          return
+  rep.extra['search_tried'] = tried
